@@ -145,6 +145,9 @@ pub enum BadGlyphKind {
     PathConversion(PathConversionError),
     Anchor(BadAnchor),
     BadDeltas(DeltaError),
+    // the glyphs on the cycle; each is a component of the one before it, and
+    // the first is a component of the last.
+    ComponentCycle(Vec<GlyphName>),
     FrontendSpecific(String),
 }
 
@@ -286,6 +289,12 @@ impl std::fmt::Display for BadGlyphKind {
             BadGlyphKind::NoAxisPosition(axis) => write!(f, "no position on '{axis}' axis"),
             BadGlyphKind::Anchor(e) => write!(f, "bad anchor: '{e}'"),
             BadGlyphKind::BadDeltas(e) => write!(f, "delta error: '{e}'"),
+            BadGlyphKind::ComponentCycle(cycle) => {
+                // close the loop: a -> b -> a
+                let names = cycle.iter().chain(cycle.first()).map(|n| n.as_str());
+                let path = names.collect::<Vec<_>>().join(" -> ");
+                write!(f, "component cycle: {path}")
+            }
             BadGlyphKind::FrontendSpecific(e) => write!(f, "{}", e),
         }
     }
